@@ -107,10 +107,10 @@ impl RecoverRunner {
         for (block, infos) in total.into_iter().map(|r| r.unwrap()).enumerate() {
             let block = block as BlockId;
 
-            if infos.is_empty() {
-                clean_blocks.push(block);
-            } else {
-                evictable_blocks.push(block);
+            match infos.first() {
+                None => clean_blocks.push(block),
+                // Entries of a block are in sequence order: the first one tells when the block was filled.
+                Some(first) => evictable_blocks.push((first.addr.sequence, block)),
             }
 
             for EntryInfo { hash, addr } in infos {
@@ -145,7 +145,10 @@ impl RecoverRunner {
         // Update components.
         indexer.insert_batch(indices);
         sequence.store(latest_sequence + 1, Ordering::Release);
-        block_manager.init(&clean_blocks);
+        // Hand the blocks with data to the eviction pickers oldest first, as they were filled.
+        evictable_blocks.sort_unstable();
+        let evictable_blocks = evictable_blocks.into_iter().map(|(_, block)| block).collect_vec();
+        block_manager.init(&clean_blocks, &evictable_blocks);
 
         let elapsed = now.elapsed();
         tracing::info!("[recover] finish in {:?}", elapsed);
